@@ -308,12 +308,14 @@ lp:
 ;;; ATOM global/adjacent-backslashes
 source_filename = "\\\\server\\share\\a.c"
 $"c\\\\d" = comdat any
-@"n\\\\m" = global [4 x i8] c"\\\\a\5C", section "s\5C\5Ct", comdat($"c\\\\d"), !tag !0
-@tail = global [3 x i8] c"a\\\\"
-@three = global [3 x i8] c"\5C\\\5C"
+@"n\\\\m" = global i32 0, section "s\5C\5Ct", comdat($"c\\\\d"), !tag !0
 define void @"f\\\\"() {
   call void asm sideeffect "nop \\\\ x", "~{dirflag}\\\\"()
   ret void
 }
 !0 = !{!"m\\\\d", !"\5C\5C\5C\5C"}
 !k\5C\5C = !{!0}
+;;; ATOM global/adjacent-backslashes-in-arrays
+@lead = global [4 x i8] c"\\\\a\5C"
+@tail = global [3 x i8] c"a\\\\"
+@three = global [3 x i8] c"\5C\\\5C"
